@@ -168,6 +168,26 @@ def absorb(out, prop, ob, rec):
                                "note": "found by running the real find() on the validation corpus (a conformance run, not a solver verdict)"})
         else:
             out.inconclusive_because(name, "the real find() panics on a validation input: %r" % (val["panics"][0],))
+    if val and val.get("sweep"):
+        # inputs whose expected entry is known by construction (one well-formed statement of a configured macro)
+        if prop in ("C10", "C05", "C06"):
+            for text, structured, info in val["sweep"][:3]:
+                out.violation("conformance-recognition", "a well-formed statement of a configured macro is not reported (or not where the reference goes)",
+                              {"engine": "native", "input": text, "structured": structured, "real_entries": info.get("real"),
+                               "expected_pos": info.get("expected_pos"),
+                               "note": "found by running the real find() on constructed statements with a multi-byte character at every "
+                                       "byte offset of the message (a conformance run, not a solver verdict)"})
+        else:
+            out.inconclusive_because(name, "the real find() misses a constructed well-formed statement: %r" % (val["sweep"][0],))
+    if val and val.get("refsweep"):
+        if prop in ("C13", "C01"):
+            for text, structured, info in val["refsweep"][:3]:
+                out.violation("conformance-ref-value", "an existing `ref` value is not classified the way the property says "
+                              "(unsigned integer literal <= 4294967295: that id; anything else: unusable, never a number)",
+                              {"engine": "native", "input": text, "structured": True, "detail": info,
+                               "note": "found by running the real find() on constructed statements (a conformance run, not a solver verdict)"})
+        else:
+            out.inconclusive_because(name, "the real find() classifies a constructed `ref` value unexpectedly: %r" % (val["refsweep"][0],))
     if val and val.get("diffs"):
         out.inconclusive_because(name, "encoder disagrees with the real find() on %d validation input(s), e.g. %r" % (
             len(val["diffs"]), val["diffs"][0]))
